@@ -200,6 +200,27 @@ class C12(UdpCheck):
                 plan[0]["pre"] = [["conn_timeout", to]]
             cfg["connect_timeout"] = to if to is not None else 2.0
             cfg["duration"] = cfg["connect_timeout"] + 6.0
+            if plan[0]["cb"] and rng.random() < 0.3:
+                plan[0]["cb_raises"] = True         # a buggy application callback: still exactly one call
+            if rng.random() < 0.35:
+                # the application keeps its UdpClient: an honest first session, the timeout is set while that connection
+                # exists, then connect() again on the same object - and this attempt is never answered
+                first = {"op": "connect", "c": 0, "t": 0.05, "cb": True}
+                to2 = rng.choice([0.5, 1.0, 3.0])
+                how = rng.choice(["after-connect", "after-connect", "before-first-connect"])
+                if how == "before-first-connect":
+                    first["pre"] = [["conn_timeout", to2]]
+                    extra = []
+                else:
+                    extra = [{"op": "setter", "c": 0, "t": 1.0, "which": "conn_timeout", "value": to2}]
+                t2 = 2.5
+                second = dict(plan[0], t=t2, reuse=True)
+                second.pop("pre", None)
+                plan = [first] + extra + [second]
+                cfg["phases"] = [{"t0": 2.0, "t1": 10 ** 9, "dst": "S", "cut": True}]
+                cfg["connect_timeout"] = to2
+                cfg["duration"] = t2 + to2 + 6.0
+                cfg["second_attempt"] = how
         else:   # setters: every order relative to connect
             vals = {"keep_alive": rng.choice([0.03, 0.2, 0.7]), "conn_timeout": rng.choice([0.7, 1.5, 4.0]),
                     "msg_timeout": rng.choice([0.4, 1.5, 2.5])}
@@ -406,15 +427,19 @@ class C12(UdpCheck):
                         vs.append({"kind": "client_dropped_outside_window", "key": "%s:%s" % (how, "early" if d < CLIENT_DROP_S else "late"),
                                    "detail": {"after_last_accept": round(d, 4), "window_hi": round(hi, 4)}})
         elif scen == "unanswered":
-            if t_connected is not None:        # the hello was answered after all (e.g. a minimiser removed the drops)
+            t0 = cn.connect_t
+            last_connect = [op for op in case["plan"] if op["op"] == "connect" and op.get("c") == 0][-1:]
+            if not last_connect or (cfg.get("second_attempt") and not (len(w.incarnations) == 2 and w.incarnations[1].get("reused"))):
+                w.vacuous = True
+                return vs
+            if any(st == "CONNECTED" and t >= t0 for t, st in statuses):      # the hello was answered after all (e.g. a minimiser removed the drops)
                 w.vacuous = True
                 return vs
             w.reached = True
             to = cfg["connect_timeout"]
-            had_cb = case["plan"][0].get("cb", True)
-            t0 = cn.connect_t
+            had_cb = last_connect[0].get("cb", True)
             disc = next((t for t, st in statuses if st == "DISCONNECTED" and t > t0), None)
-            key = "cb" if had_cb else "nocb"
+            key = ("cb" if had_cb else "nocb") + (":second-attempt:" + cfg["second_attempt"] if cfg.get("second_attempt") else "")
             if disc is None:
                 vs.append({"kind": "unanswered_connect_never_ends", "key": key,
                            "detail": {"timeout": to, "statuses": statuses, "end": w.k.now}})
